@@ -177,7 +177,7 @@ def c05_jobs(tier):
 def c13_jobs(tier):
     jobs = []
     q = tier == "quick"
-    L = 8 if q else 64
+    L = 8 if q else 1024
     bases = [[], [40], [33, 41], [47, 48]] if q else [[]] + [[k] for k in PAYLOAD_KINDS] + [[33, 41], [47, 48], [34, 40, 43]]
     for base in bases:
         for mode in (0, 1, 2):
@@ -400,9 +400,9 @@ def c12_jobs(tier):
     q = tier == "quick"
     jobs = []
     A = dict(solver="cvc5")
-    nsa, nb, nloop, ne = (20, 28, 24, 4 + 16) if q else (26, 44, 36, 4 + 24)
+    nsa, nb, nloop, ncp, ne = (20, 28, 24, 24, 4 + 16) if q else (26, 44, 36, 26, 4 + 18)
     for k in range(33, 48):
-        top = nsa if k == 33 else (nloop if k in (44, 45, 47) else nb)
+        top = nsa if k == 33 else (ncp if k == 47 else (nloop if k in (44, 45) else nb))
         for n in range(0, top + 1):
             jobs.append(job(MSG, "HStableBody", [k, n], **A))
     for n in range(0, ne + 1):
@@ -554,7 +554,7 @@ PROPS = {
                 assumptions=["NewIKESAKey with a foreign integrity transform runs the Diffie-Hellman step before it fails: there the public and shared values are assumed to have no leading zero octet and the exponent rejection loop is unwound twice (unwinding assumption); C09 decides those cases"] + CRYPTO_ASSUME),
 
     "C12": dict(jobs=c12_jobs, claim="For every byte string up to the bound (arbitrary content, per payload body decoder, per EAP packet, and whole datagrams including chains with unsupported payloads): decode ok and encode ok imply that the re-encoding decodes to an equal value and encodes to itself (fixed point after one step); canonical datagrams of the independent encoder (zero reserved bits, no unsupported payloads, exact lengths, transforms grouped by ascending type) re-encode byte-identically. Loops are unrolled (the contents of what was decoded matter), and re-encoding concretises symbolic field lengths by solver enumeration, which is what limits the bound.",
-                bounds=lambda t: "payload bodies: SA <= %d octets, TS/CP <= %d, others <= %d; EAP packets <= %d; whole datagrams <= %d octets; canonical datagrams from the generator shapes (every kind alone, 15 pairs)" % ((20, 24, 28, 20, 36) if t == "quick" else (26, 36, 44, 28, 38)),
+                bounds=lambda t: "payload bodies: SA <= %d octets, TS/CP <= %d, others <= %d; EAP packets <= %d; whole datagrams <= %d octets; canonical datagrams from the generator shapes (every kind alone, 15 pairs)" % ((20, 24, 28, 20, 36) if t == "quick" else (26, 36, 44, 22, 38)) + ("" if t == "quick" else " (CP <= 26)"),
                 outside="longer byte strings; a panic inside Encode of a decoded value would be reported as a panic violation (none found)"),
 
     "C17": dict(jobs=c17_jobs, claim="Inductive step instead of exploring histories: the SA key object starts in an arbitrary reachable state (every keyed-hash object with arbitrary octets already written - the HMAC buffer is the objects' only state and any content is reachable through a previous rejected message; ciphers satisfying the representation invariant) and one operation - protect as either role, unprotect a genuine message, reject an arbitrary datagram with invalid ICV, derive Child SA keys - must give the result a fresh object gives (accepted by / accepting a fresh peer, payloads equal, forged still rejected and the cipher not reached, keys equal to the specification), and must re-establish the invariant, which covers operation sequences of any length; two-operation sequences are run explicitly as a cross-check.",
@@ -600,8 +600,8 @@ PROPS = {
                 outside="larger shapes; interleavings of more than 3 transforms beyond reverse/rotate",
                 trusted=["the reference codec in harness/message/zz_verif_ref.go and harness/eap/zz_verif_ref.go (written from the RFC layouts; its own lemma Parse(Encode(m)) == m is checked)"]),
     "C13": dict(jobs=c13_jobs, claim="For each base message shape and every one or two insertion positions, a solver-decided statement over a symbolic unsupported type code (all of 1..32, 49..255 at once), symbolic flags and body: non-critical => decodes exactly as the base message; critical => error; critical/reserved bits on implemented payloads are ignored.",
-                bounds=lambda t: "base messages of 0..2 (quick) / 0..3 (thorough) payloads, one or two insertions at every position, body lengths {0,1,8%s}" % ("" if t == "quick" else ",64"),
-                outside="bodies longer than 64 octets (the body is only skipped by length), more than two insertions"),
+                bounds=lambda t: "base messages of 0..2 (quick) / 0..3 (thorough) payloads, one or two insertions at every position, body lengths {0,1,8%s}" % ("" if t == "quick" else ",1024"),
+                outside="body lengths other than those listed (the body is only skipped by length), more than two insertions"),
     "C20": dict(jobs=c20_jobs, claim="Decided on the engine's heap: after Decode / DecodeDecrypt the receive buffer (including spare capacity) is overwritten with fresh symbolic octets and every payload field must still equal its snapshot for all values (an aliased field would read the fresh symbols); Encode leaves all payload fields unchanged, does not reference the returned buffer, and two encodings are identical under the explored map iteration orders; EncodeEncrypt changes only the payload list and header bookkeeping.",
                 bounds=lambda t: "every payload kind alone and 15 pairs at generator tier 0/1; arbitrary accepted datagrams up to %d octets; protect/unprotect for %s suites" % ((36, 3) if t == "quick" else (38, 9)),
                 outside="larger messages; map iteration orders other than those listed in the evidence for maps of more than 3 entries", assumptions=CRYPTO_ASSUME),
